@@ -46,13 +46,13 @@ REGISTRY = {
     'C03': dict(mods=['C03'], thms=['C03_value_roundtrip', 'C03_table_roundtrip', 'C03_array_roundtrip', 'C03_type_preserved', 'C03_int_bool_exact', 'C03_keys_preserved', 'C03_decimal_value'],
                 tie=['tieA_table_mapping', 'tieA_struct_formats', 'tieA_struct_uses', 'tieA_ladder', 'tieA_codec_calls'],
                 lanes=['enc_prim', 'enc_tint', 'enc_value:ok', 'dec_prim', 'dec_value:wellformed', 'cpython_utf8', 'cpython_f32'], oracles=['c03']),
-    'C04': dict(mods=['C04'], thms=['C04_value_refines_spec', 'C04_value_sorted', 'C04_args_refine_spec', 'C04_envelope_layout', 'C04_header_payload_layout', 'C04_fixed_frames'],
+    'C04': dict(mods=['C04', 'C04Frame'], thms=['C04_method_frame', 'C04_header_frame', 'C04_body_frame', 'C04_value_refines_spec', 'C04_value_sorted', 'C04_args_refine_spec', 'C04_envelope_layout', 'C04_header_payload_layout', 'C04_fixed_frames'],
                 tie=['tieA_methods', 'tieA_struct_formats', 'tieA_struct_uses', 'tieA_envelope_struct_uses', 'tieA_protocol_header_struct_uses', 'tieA_content_header_struct_uses', 'tieA_frame_constants', 'tieA_constant_values', 'tieA_ladder', 'tieA_codec_calls'],
                 lanes=['enc_prim', 'enc_tint', 'enc_value:ok', 'enc_value:any', 'args/args.marshal', 'props/props.marshal', 'frame/frame.marshal', 'cpython_sort', 'spec/spec.enc,spec.args'], oracles=['c04']),
     'C05': dict(mods=['C05', 'C05Frame'], thms=['C05_decode_agrees_value', 'C05_decode_agrees_table', 'C05_parse_wire', 'C05_no_validation', 'C05_timestamp_refused', 'C05_timestamp_ms', 'C05_method_args', 'C05_method_frame', 'C05_header_frame'],
                 tie=['tieA_table_mapping', 'tieA_methods', 'tieA_struct_formats', 'tieA_struct_uses', 'tieA_content_header_struct_uses', 'tieA_codec_calls'],
                 lanes=['dec_prim', 'dec_value:wellformed', 'args/args.unmarshal', 'props/props.unmarshal,flags', 'frame/frame.unmarshal.M,frame.unmarshal.H', 'spec/spec.parse'], oracles=['c05']),
-    'C06': dict(mods=['C06'], thms=['C06_prefix_determines', 'C06_envelope', 'C06_stream'],
+    'C06': dict(mods=['C06', 'C06Stream'], thms=['C06_stream_of_items', 'C06_prefix_determines', 'C06_envelope', 'C06_stream'],
                 tie=['tieA_envelope_struct_uses', 'tieA_protocol_header_struct_uses', 'tieA_frame_constants', 'tieA_constant_values'], lanes=['frame/frame.unmarshal,frame.envelope'], oracles=['c06']),
     'C07': dict(mods=['C07'], thms=['C07_prefix_rejected'],
                 tie=['tieA_envelope_struct_uses', 'tieA_protocol_header_struct_uses', 'tieA_frame_constants', 'tieA_constant_values', 'tieA_frame_except_sites'], lanes=['frame/frame.envelope,frame.unmarshal.malformed'], oracles=['c07']),
@@ -67,8 +67,8 @@ REGISTRY = {
                 tie=['tieA_ladder', 'tieA_guards', 'tieA_toggle'], lanes=['enc_tint', 'enc_prim/enc.prim.short_int,enc.prim.short_uint,enc.prim.long_int,enc.prim.long_uint,enc.prim.long_long_int', 'api_toggle'], oracles=['c11']),
     'C12': dict(mods=['C12'], thms=['C12_perm_invariant', 'C12_table_perm_invariant', 'C12_sorted', 'C12_sorted_perm', 'C12_order_total', 'C12_order_antisymm'],
                 tie=['tieA_no_shared_mutation'], lanes=['enc_value:ok', 'cpython_sort'], oracles=['c12']),
-    'C13': dict(mods=['C13'], thms=['C13_rules_eq_spec', 'C13_constrained_classes_exist', 'C13_ctor_validates', 'C13_char_class', 'C13_char_count', 'C13_validate_iff', 'C13_marshal_revalidates', 'C13_decode_never_validates'],
-                tie=['tieA_domain_regex'], lanes=['validate', 'ctor', 'cpython_regex'], oracles=['c13']),
+    'C13': dict(mods=['C13', 'C13Ctor'], thms=['C13_constructor_iff', 'C13_unconstrained_accepts', 'C13_rules_eq_spec', 'C13_constrained_classes_exist', 'C13_ctor_validates', 'C13_char_class', 'C13_char_count', 'C13_validate_iff', 'C13_marshal_revalidates', 'C13_decode_never_validates'],
+                tie=['tieA_domain_regex'], lanes=['validate', 'ctor', 'ctor_args', 'cpython_regex'], oracles=['c13']),
     'C14': dict(mods=['C14'], thms=['C14_catalogue_eq_spec', 'C14_count', 'C14_index', 'C14_keys_distinct', 'C14_sync_iff_replies', 'C14_replies_same_class', 'C14_python_names', 'C14_properties_eq_spec', 'C14_construct_defaults'],
                 tie=[], lanes=['ctor'], oracles=['c14']),
     'C15': dict(mods=['C15'], thms=['C15_naive_as_utc', 'C15_aware_instant', 'C15_encoding', 'C15_struct_time', 'C15_decode_utc', 'C15_roundtrip_instant'],
